@@ -14,6 +14,7 @@ Not decided: behaviour of user-supplied policies; end-to-end frame counts.
 from ..inline import inline_view
 from ..dataflow import Dataflow, adt_of_type
 from ..mir import AnchorLost
+from ..util import df_of, in_set, uses_of_local
 
 TRAIT = "scylla::policies::retry::retry_policy::RetrySession"
 DECISION = "scylla::policies::retry::retry_policy::RetryDecision"
@@ -317,7 +318,6 @@ def r6(ctx, facts):
         if b.kind == "Closure":
             creator = facts.body(b.parent)
             if creator is not None:
-                from ..util import uses_of_local
                 for cbb in creator.live_blocks:
                     for st in creator.stmts(cbb):
                         if st[0] == "A" and st[2][0] == "agg" and st[2][1][0] == "closure" and st[2][1][1] == b.path:
@@ -329,6 +329,41 @@ def r6(ctx, facts):
                                 recv = d.canon.path(t[2][0][1]) if t[2][0][0] in ("c", "m") else None
                                 ok = bool(recv) and recv[1][-1:] == ("retry_session",)
                                 why = "initialiser of %s" % (d.canon.fmt(recv) if recv else "?")
+        if not ok and b.kind != "Closure":
+            # the explicit form: `match self.retry_session { Some(s) => s, None => self.retry_session.insert(policy.new_session()) }`
+            d = df_of(b, facts)
+            st = d.state_in.get(bb) or {}
+            slot_empty = any(k[0] == "disc" and k[1][1][-1:] == ("retry_session",) and in_set(v, {0}) for k, v in st.items())
+            call = [c for x, c in b.calls() if x == bb][0]
+            stored = False
+            work, seen = [call.dest[0]], set()
+            while work:
+                l = work.pop()
+                if l in seen:
+                    continue
+                seen.add(l)
+                for ubb, kind, op in uses_of_local(b, l):
+                    if kind[0] == "arg":
+                        t = b.term(ubb)
+                        recv = d.canon.path(t[2][0][1]) if t[2] and t[2][0][0] in ("c", "m") else None
+                        if t[1].get("def", "").endswith(("Option::<T>::insert", "Option::<T>::replace", "Option::<T>::get_or_insert")) and recv and recv[1][-1:] == ("retry_session",):
+                            stored = True
+                    elif kind[0] == "stmt":
+                        stt = kind[1]
+                        if stt[2][0] == "agg" and stt[2][1][0] == "adt" and stt[2][1][2] == "Some":
+                            dp = d.canon.path(stt[1])
+                            if dp[1][-1:] == ("retry_session",):
+                                stored = True
+                            else:
+                                work.append(stt[1][0])
+                        elif stt[2][0] in ("use", "cast"):
+                            dp = d.canon.path(stt[1])
+                            if dp[1][-1:] == ("retry_session",):
+                                stored = True
+                            elif not stt[1][1]:
+                                work.append(stt[1][0])
+            ok = slot_empty and stored
+            why = "new_session() must run only where the fiber's session slot is empty (%s) and its result must be stored in that slot (%s)" % (slot_empty, stored)
         r.instance("session-created-lazily-once:" + key, ok, why + " (a session rebuilt per attempt forgets its one-shot retry flags: unbounded same-target retries)", b.term_span(bb))
     # nobody else writes the slot
     from ..util import field_writers
